@@ -288,7 +288,7 @@ func runRegistry(path []Op, log io.Writer) (string, *failure) {
 					m[v] = true
 				}
 				if obj, msg := wl.checkView("late plain listener (watch down)", setOf(m), setOf(m), nl, true); obj != "" && (last || log != nil) {
-					return "", &failure{"late-monitor:" + classOf(wl, obj, cat, true, false), msg}
+					return "", &failure{lateClass(wl, obj, cat), msg}
 				}
 			}
 			continue
@@ -326,7 +326,7 @@ func runRegistry(path []Op, log io.Writer) (string, *failure) {
 			case objP != "":
 				f = &failure{classOf(wp, objP, cat, true, false), msgP}
 			case objL != "":
-				f = &failure{"late-monitor:" + classOf(wl, objL, cat, true, false), msgL}
+				f = &failure{lateClass(wl, objL, cat), msgL}
 			case objX != "":
 				f = &failure{exclusiveClass(st, classOf(wx, objX, cat, false, st.offPut)), msgX}
 			}
@@ -352,4 +352,13 @@ func exclusiveClass(st *regState, class string) string {
 		return "exclusive-only:reload-add-order-decides-latest-key"
 	}
 	return "exclusive-only:offline-reregistration-invisible-to-reload"
+}
+
+// lateClass: a late listener that fails because of an internal inconsistency caused by an
+// earlier event has that event's class; otherwise the failure is specific to the late Monitor.
+func lateClass(wl *watched, obj, cat string) string {
+	if wl.rootCat != "" {
+		return classOf(wl, obj, cat, true, false)
+	}
+	return "late-monitor:" + obj + ":" + cat
 }
